@@ -242,6 +242,9 @@ def run_case(base, case, acc):
         for g in rng.sample(list(model.genes), min(len(model.genes), rng.randint(1, 2))):
             g.knock_out()
         acc.count("copies_of_models_with_knocked_out_genes")
+    if rng.random() < 0.4:
+        model.tolerance = rng.choice([1e-9, 1e-8, 1e-6])
+        acc.count("copies_of_models_with_a_non_default_tolerance")
     open_ctx = rng.choice([0, 0, 1, 2])
     for _ in range(open_ctx):
         model.__enter__()
@@ -281,6 +284,14 @@ def run_case(base, case, acc):
         return
     if cp.tolerance != model.tolerance:
         acc.violation(f"C12/{kind}/tolerance", f"tolerance {cp.tolerance} vs {model.tolerance}", ident)
+        return
+    # "... the same tolerance": what the solver of the copy works with, not only the attribute
+    acc.count("solver_tolerance_comparisons")
+    ta = {k: v for k, v in s_orig["lp"]["config"].items() if k.startswith("tol_")}
+    tb = {k: v for k, v in s_copy["lp"]["config"].items() if k.startswith("tol_")}
+    if ta != tb:
+        bad = sorted(k for k in set(ta) | set(tb) if ta.get(k) != tb.get(k))
+        acc.violation(f"C12/{kind}/solver-tolerance/{'+'.join(b[4:] for b in bad)}", f"the solver of the {kind} works with other tolerances than the original's: {ta} -> {tb}", dict(ident, original=ta, copy=tb))
         return
     # (2) identity
     acc.ev()
